@@ -179,3 +179,61 @@ pub async fn op_cache_roles(sc: Value) -> Value {
     dev.truncate(10);
     json!({"cases": cases, "deviations": dev})
 }
+
+/// C16: FilesystemTransport must open the path component of a file URL verbatim.  For each role name: the metadata directory holds NO entry under the
+/// encoded file name but a file exists at the percent-DECODED location (inside or outside the directory); the fetch must be FileNotFound.  Control: the
+/// entry under the encoded name is served with its own bytes even when a decoded twin exists.
+pub async fn op_file_transport(sc: Value) -> Value {
+    use futures::StreamExt;
+    let names: Vec<String> = sc["names"].as_array().unwrap().iter().map(|v| v.as_str().unwrap().to_string()).collect();
+    let mut dev: Vec<Value> = vec![];
+    let mut cases = 0;
+    for name in &names {
+        let enc = format!("{}.json", ref_encode(name));
+        let work = tempfile::tempdir().unwrap();
+        let md = work.path().join("outer").join("metadata");
+        std::fs::create_dir_all(&md).unwrap();
+        let decoded = md.join(format!("{name}.json"));
+        if name.contains('\0') || enc == format!("{name}.json") {
+            continue; // nothing to decode
+        }
+        let mut placed = false;
+        if let Some(parent) = decoded.parent() {
+            if std::fs::create_dir_all(parent).is_ok() && std::fs::write(&decoded, b"DECODED TWIN").is_ok() {
+                placed = true;
+            }
+        }
+        let url = crate::repo::dir_url(&md).join(&enc).unwrap();
+        // (1) only the decoded twin exists
+        cases += 1;
+        let got = match FilesystemTransport.fetch(url.clone()).await {
+            Ok(mut s) => {
+                let mut b = vec![];
+                while let Some(Ok(x)) = s.next().await {
+                    b.extend_from_slice(&x);
+                }
+                Some(b)
+            }
+            Err(_) => None,
+        };
+        if let Some(b) = got {
+            dev.push(json!({"what": format!("role name {name:?}: the client asks for {enc:?}; no such entry exists, yet FilesystemTransport serves {:?} (decoded twin placed: {placed}, at {:?})", String::from_utf8_lossy(&b), decoded.strip_prefix(work.path()).unwrap_or(&decoded))}));
+        }
+        // (2) the encoded entry exists as well: it is what must be served
+        cases += 1;
+        std::fs::write(md.join(&enc), b"ENCODED ENTRY").unwrap();
+        match FilesystemTransport.fetch(url).await {
+            Ok(mut s) => {
+                let mut b = vec![];
+                while let Some(Ok(x)) = s.next().await {
+                    b.extend_from_slice(&x);
+                }
+                if b != b"ENCODED ENTRY" {
+                    dev.push(json!({"what": format!("role name {name:?}: entry {enc:?} exists but FilesystemTransport serves {:?}", String::from_utf8_lossy(&b))}));
+                }
+            }
+            Err(e) => dev.push(json!({"what": format!("role name {name:?}: entry {enc:?} exists but the fetch fails: {e}")})),
+        }
+    }
+    json!({"cases": cases, "deviations": dev})
+}
